@@ -103,6 +103,12 @@ CHECKS = {
         "Trusted: json, bytes.hex/fromhex, argparse. inspect.signature is applied to stdlib callables only.",
         "DESIGN.md 3/C20",
     ),
+    "C08": (
+        "affine frame analysis (fresh per-activation state, decoded test truth table, recursion on the hit), attribute-load census of the node parameter with the pop loop excluded by the span-bound certificate of the abstract interpreter, effect analysis of the decoder path",
+        "Decides: decoded hits are recursed into with nothing but the hit and the remaining depth; loop state is allocated per activation; of its node scan_node reads only value/type/children (start only in the pop loop, unreachable for the root because all shipped hits are in bounds); decoders get NODE.value only and keep no state. Equality of the child lists as values is the paper consequence with C09.",
+        "Trusted: Python call semantics. Depends on the C03-R5 span certificate.",
+        "DESIGN.md 3/C08",
+    ),
     "C09": (
         "interprocedural order-taint analysis (unordered / file-system-ordered values vs order-observing uses, sorted() as sanitiser), write-effect analysis with call-site freshness, entropy-source census, stdlib source inspection of the registry enumerators",
         "Decides that no set / hash-ordered / file-system-ordered value reaches result order unsorted on the registry-build and scan paths, that the scan path writes no state shared between activations (so repeated, re-used and concurrent scans cannot influence each other through the library), that no entropy source is consulted, and that ties of the stable sort are registry order then decoder-return order.",
